@@ -362,13 +362,36 @@ def join(a: AVal, b: AVal) -> AVal:
         eb = b.elem if b.items is None else _join_all(b.items)
         return ListV(items=None, elem=join(ea, eb) if ea is not None and eb is not None else (ea or eb), kind=a.kind,
                      over=a.over if a.over == b.over else None, order=a.order if a.order == b.order else None)
+    if isinstance(a, (ListV, SetV)) and isinstance(b, (ListV, SetV)) and type(a) is not type(b):
+        # key collections met as a list on one path and as a set on the other: keep the set view
+        def as_set(x):
+            if isinstance(x, SetV):
+                return x
+            atoms = frozenset(o for it in (x.items or ()) if isinstance(it, TV) and it.note == "key" for o in it.origin) or \
+                (frozenset(a2 for a2 in x.order[0] if isinstance(a2, str)) if x.order else frozenset())
+            if x.items is None and isinstance(x.elem, TV) and x.elem.note == "key":
+                atoms = x.elem.origin
+            return SetV(items=None if x.items is None or x.items else (), elem=x.elem if x.items is None else _join_all(x.items), atoms=atoms)
+
+        return join(as_set(a), as_set(b))
     if isinstance(a, DictV) and isinstance(b, DictV):
         if a.items is not None and len(a.items) == 0:
             return b
         if b.items is not None and len(b.items) == 0:
             return a
-        if a.items is None and b.items is None:
-            return DictV(items=None, keys=join(a.keys, b.keys), val=join(a.val, b.val), ordered=a.ordered and b.ordered)
+        def summ(d):
+            if d.items is None:
+                return d
+            ks = ListV(items=tuple(k for k, _ in d.items))
+            return DictV(items=None, keys=ks, val=_join_all([v for _, v in d.items]), ordered=d.ordered)
+
+        sa_, sb_ = summ(a), summ(b)
+        ka, kb = sa_.keys, sb_.keys
+        if isinstance(ka, ListV) and isinstance(kb, ListV) and ka.items is not None and kb.items is not None:
+            keys = ListV(items=ka.items + tuple(k for k in kb.items if k not in ka.items))
+        else:
+            keys = join(ka, kb)
+        return DictV(items=None, keys=keys, val=join(sa_.val, sb_.val), ordered=a.ordered and b.ordered)
     if isinstance(a, SetV) and isinstance(b, SetV):
         if a.items is not None and len(a.items) == 0 and b.items is None:
             return b
@@ -376,7 +399,11 @@ def join(a: AVal, b: AVal) -> AVal:
             return a
         ea = a.elem if a.items is None else _join_all(a.items)
         eb = b.elem if b.items is None else _join_all(b.items)
-        return SetV(items=None, elem=join(ea, eb) if ea is not None and eb is not None else (ea or eb), atoms=a.atoms | b.atoms)
+
+        def at(x):
+            return x.atoms or frozenset(o for it in (x.items or ()) if isinstance(it, TV) and it.note == "key" for o in it.origin)
+
+        return SetV(items=None, elem=join(ea, eb) if ea is not None and eb is not None else (ea or eb), atoms=at(a) | at(b))
     return Unk(f"join of {type(a).__name__}/{type(b).__name__}")
 
 
